@@ -227,7 +227,50 @@ def c19(tier):
                     assumptions=TRUST + ["Unicode Table 3-7 transcription in spec/Pct.tla (TLC checks the UTF-8 round trip)"])
 
 
+def c15(tier):
+    c = new_check("C15", tier)
+    for model, cfg in cfgs("mc/MC_Rel", tier, [""]):
+        r = run_tlc(model, cfg=cfg, name=os.path.basename(cfg), coverage=False)
+        c.add_tlc(r, "pairs of URIs sharing prefixes of every length (inputs only; TLC also checks satisfiability)")
+        if r.error:
+            continue
+        rr = run_replay(r.cases_path, name=os.path.basename(cfg))
+        c.add_replay(rr, "relative_to executed on every pair, result recorded", r.cases_path)
+        n, bad, tr = vlib.run_trace(rr.obs_path, name="C15-" + tier, select=lambda e: e.get("ev") == "rel")
+        c.add_trace(n, bad, tr, "recorded (a, b, a.relative_to(b)) judged with the specification's resolver and equivalence")
+        with open(rr.obs_path) as fh:
+            for line in fh:
+                e = json.loads(line)
+                if e.get("ev") == "rel":
+                    c.samples.append(vlib.pretty_case(e))
+                    if len(c.samples) >= 4:
+                        break
+    return c.finish(rule="pairs (a, b): schemes equal/different, authorities equal/different/absent, absolute and rootless "
+                         "paths of bounded segment count with dot, empty and colon segments, query/fragment; each recorded "
+                         "result is one validated event",
+                    assumptions=TRUST + ["spec/Resolve.tla and spec/Equiv.tla as the judge of the round trip"])
+
+
+def c16(tier):
+    c = new_check("C16", tier)
+    for model, cfg in cfgs("mc/MC_Rel", tier, [""]):
+        r = run_tlc(model, cfg=cfg, name=os.path.basename(cfg), coverage=False)
+        c.add_tlc(r, "value/prefix pairs of paths and URIs (inputs only; TLC checks prefix ++ suffix = value)")
+        if r.error:
+            continue
+        rr = run_replay(r.cases_path, name=os.path.basename(cfg))
+        c.add_replay(rr, "suffix executed on every pair, result recorded", r.cases_path)
+        n, bad, tr = vlib.run_trace(rr.obs_path, name="C16-" + tier, select=lambda e: e.get("ev") == "suffix")
+        c.add_trace(n, bad, tr, "recorded suffix results judged by TLC (existence, remaining segments, query/fragment)")
+    for model, cfg in cfgs("mc/MC_Parts", tier, ["", "iri"]):
+        mc_replay(c, model, cfg, "base() of every valid reference within the bound")
+    return c.finish(rule="suffix: pairs of paths / URIs over {a, b, '', ., .., %61}; base: every enumerated valid reference",
+                    assumptions=TRUST)
+
+
 PIPELINES = {
+    "C15": c15,
+    "C16": c16,
     "C04": c04,
     "C05": c05,
     "C10": c10,
